@@ -27,7 +27,7 @@ import tempfile
 from concurrent.futures import ProcessPoolExecutor
 from typing import Any
 
-from vf import streaming, tlc
+from vf import orchestration, streaming, tlc
 from vf.evidence import MachineryFailure
 
 OBJS = ['o1', 'o2', 'o3']
@@ -224,11 +224,12 @@ def run_coverage(sc: dict[str, Any]) -> dict[str, Any]:
         try:
             sim.run(sc['end']); check()
             steps = streaming.segments(sim.recorder.events, streaming.conf_from_settings(op.settings), sc['id'], end_t=sc['end'])
+            orch = orchestration.trace_of(sim.recorder.events, 'op1', sc['id'], sim.insights_of('op1'))
             op.finish()
         except Stall:
-            stall = True; steps = []
+            stall = True; steps = []; orch = None
         events = [e for e in convert(sim.recorder.events, {PLURAL, 'widgets', 'cthings'}) if e['ev'] in ('check', 'notfound', 'open', 'list')]
-        return {'id': sc['id'], 'events': events, 'stall': stall, 'scenario': sc, 'steps': steps}
+        return {'id': sc['id'], 'events': events, 'stall': stall, 'scenario': sc, 'steps': steps, 'orch': orch}
     finally:
         sim.close()
 
@@ -278,11 +279,12 @@ def run_crdmod(sc: dict[str, Any]) -> dict[str, Any]:
         try:
             sim.run(sc['end']); check()
             steps = streaming.segments(sim.recorder.events, streaming.conf_from_settings(op.settings), sc['id'], end_t=sc['end'])
+            orch = orchestration.trace_of(sim.recorder.events, 'op1', sc['id'], sim.insights_of('op1'))
             op.finish()
         except Stall:
-            stall = True; steps = []
+            stall = True; steps = []; orch = None
         events = [e for e in convert(sim.recorder.events, set()) if e['ev'] == 'check']
-        return {'id': sc['id'], 'events': events, 'stall': stall, 'scenario': sc, 'steps': steps}
+        return {'id': sc['id'], 'events': events, 'stall': stall, 'scenario': sc, 'steps': steps, 'orch': orch}
     finally:
         sim.close()
 
@@ -421,11 +423,15 @@ def run(ctx, rep) -> None:
     rep.add_tlc('MC_Orchestration', r)
     if not r.ok:
         rep.violation(f'Orchestration design check: {r.violated} {r.errors[:1]}', files={'tlc.out': r.out[-100000:]})
+    r = tlc.run('Orchestration', 'MC_Orchestration_cs.cfg')       # with a cluster-scoped kind: Coverage up to the family F34
+    rep.add_tlc('MC_Orchestration_cs', r)
+    if not r.ok:
+        rep.violation(f'Orchestration design check (cluster-scoped kind): {r.violated} {r.errors[:1]}', files={'tlc.out': r.out[-100000:]})
     r = tlc.run('Orchestration', 'MC_Orchestration_unb.cfg')      # any number of revisions over 4 pairs (the counter is outside the VIEW)
     rep.add_tlc('MC_Orchestration_unb', r)
     if not r.ok:
         rep.violation(f'Orchestration design check (unbounded revisions): {r.violated} {r.errors[:1]}', files={'tlc.out': r.out[-100000:]})
-    for cfg, inv in (('MC_Orchestration_neg.cfg', 'Coverage'), ('MC_Orchestration_f15.cfg', 'NoFamily')):
+    for cfg, inv in (('MC_Orchestration_neg.cfg', 'Coverage'), ('MC_Orchestration_f15.cfg', 'NoFamily'), ('MC_Orchestration_f34.cfg', 'NoF34')):
         rn = tlc.run('Orchestration', cfg)
         if rn.ok or ('invariant', inv) not in rn.violated:
             raise MachineryFailure(f'{cfg} did not violate {inv}: {rn.violated}')
@@ -485,6 +491,19 @@ def run(ctx, rep) -> None:
             rep.nontrivial(s['events'])
         if sv[s['id']]['verdict'] != 'accepted':
             rep.violation(f'{s["id"]}: watcher task is not a behaviour of Streaming.tla: {sv[s["id"]]["verdict"]}', payload=s)
+    # step conformance of the orchestrator: every adjustment (with the insights it read) and every start / end of a watcher task of
+    # the coverage and CRD-modification runs against Orchestration.tla
+    ots = [t['orch'] for t in traces if t.get('orch')]
+    ov = orchestration.judge(ots, rep)
+    rep.evaluations += len(ots); rep.traces += len(ots)
+    rep.extra['orchestration_traces'] = len(ots)
+    for t in ots:
+        if sum(1 for e in t['events'] if e['ev'] in ('spawn', 'exit')) > 2:
+            rep.nontrivial(t['events'])
+        if ov[t['id']]['verdict'] != 'accepted':
+            rep.violation(f'{t["id"]}: the orchestrator is not a behaviour of Orchestration.tla: {ov[t["id"]]["verdict"]}', payload=t)
     rep.sample({'scenario': traces[0]['scenario'], 'events_head': traces[0]['events'][:12]}); rep.sample(traces[-1]['events'][-3:])
+    if ots:
+        rep.sample({'orchestrator': ots[1]['id'], 'events_head': ots[1]['events'][:12]})
     if segs:
         rep.sample({'watcher': segs[0]['id'], 'conf': segs[0]['conf'], 'events_head': segs[0]['events'][:14]})
